@@ -205,6 +205,8 @@ def run(tier):
     extra = [('sv', 'json/%s.json' % s, 'Draft6Validator', False) for s in SCHEMAS]
     # validator classes derived with jsonschema.validators.extend (they all carry the class name 'Validator')
     EXTV = [('sv', 'json/%s.json' % sname, 'ext:' + v, ef) for sname in SCHEMAS for v in ('Draft3Validator', 'Draft4Validator') for ef in (False, True)]
+    # class-statement subclasses with a meta-schema of their own
+    EXTV += [('sv', 'json/%s.json' % sname, 'sub:' + v, ef) for sname in SCHEMAS[:4] for v in ('Draft4Validator', 'Draft7Validator') for ef in (False, True)]
     extra += EXTV
     X = cross_calls()
     R = reduced_alphabet()
